@@ -20,7 +20,8 @@ func init() {
 			"C03.b DOM: in Store.Open the assignments NoSnapshotRestoreOnStart=true / removeDBFiles=false are dominated by: store not empty, marker exists, marker readable, ModTimeSize(dbPath) ok, mtime equal, size equal, snapshot gate acquired; the two flags always change together (also after RecoverNode); createDBOnDisk receives that flag; the CRC goroutine returns normally only on a checksum match (or legacy zero CRC) and its exit path removes the marker before exiting. " +
 			"C03.c ORD: createSnapshotFingerprint fingerprints the live database file (DBLastModified, FileSize, CRC32 of Store.dbPath), writes a temporary file, and renames it over the marker only after WriteToFile succeeded; WriteToFile returns nil only after Sync succeeded. " +
 			"C03.d DOM: createDBOnDisk removes the database files or at least the WAL files before opening (the log is the source of truth for what the WAL held). " +
-			"C03.f CONST: the raft log store is never opened with bbolt NoSync/NoGrowSync.",
+			"C03.f CONST: the raft log store is never opened with bbolt NoSync/NoGrowSync. " +
+			"C03.g WHO: the snapshot store that Store.Open hands to raft.NewRaft is a store-package wrapper whose Create removes the marker (directly, or through a func field bound in Open to a function that removes Store.cleanSnapshotPath) and creates the sink only on the nil edge of that removal — so a snapshot received from the leader can never be newest in the store while the old marker still vouches for the old database file.",
 		NotCovered: []string{"what SQLite, bbolt and the file system do at a crash point", "recovered state versus acknowledged history (needs executions)", "directory-entry durability of the marker rename"},
 		Run:        runC03,
 	})
@@ -34,6 +35,7 @@ func isMarkerPath(v ssa.Value) bool {
 }
 
 func runC03(c *core.Ctx) {
+	c03Install(c)
 	all := moduleFuncs(c)
 
 	// ---- C03.a publishers of the marker
